@@ -39,10 +39,15 @@ def tasks(tier):
     for mx, W in [(1, 2), (2, 3), (1, 3)]:
         out.append({"family": "budget-raw", "cfg": {"max": mx, "window": W, "frac_tick": True},
                     "entry": "Budget", "bound": depth - 2, "weight": 5})
+    for mx, W in [(1, 2), (2, 3)]:
+        out.append({"family": "budget-raw", "cfg": {"max": mx, "window": W, "widen": True},
+                    "entry": "Budget", "bound": depth - 2, "weight": 5})
     for mx, W, pat in itertools.product([0, 1, 2], [2, 4],
                                         [("Retry.execute", "AsyncRetry.call"),
                                          ("Policy.call", "AsyncRetry.execute"),
-                                         ("Retry.call", "Retry.execute")]):
+                                         ("Retry.call", "Retry.execute"),
+                                         ("RetryCfg.call", "AsyncRetryCfg.execute"),
+                                         ("RetryPolicyCfg.execute", "Retry.call")]):
         cfg = dict(M=3 if tier == "thorough" else 2,
                    alphabet=["x:T", "ok", "r:T"] if tier == "thorough" else ["x:T", "ok"],
                    max_unknown=None,
